@@ -42,13 +42,15 @@ def data(ctx, i):
         X = gen.maybe_int(r, X * 4.0, p=0.2, floats=False)  # integer-typed feature arrays (kept full rank by the spread)
     perm = r.permutation(N)
     X, lab = X[perm], lab[perm]
-    kind = ["zero_based", "shifted", "negative", "noncontiguous", "unsorted"][i % 5]
+    kind = ["zero_based", "shifted", "negative", "noncontiguous", "unsorted", "large_ids"][i % 6]
     if kind == "zero_based":
         names = np.arange(K)
     elif kind == "shifted":
         names = np.arange(K) + int(r.integers(1, 50))
     elif kind == "negative":
         names = -np.arange(1, K + 1) * int(r.integers(1, 9))
+    elif kind == "large_ids":  # subject ids: large, consecutive or nearly so (distinct integers, however close in relative terms)
+        names = int(r.choice([100000, 2000000, 10**9, -(10**7)])) + np.sort(r.choice(np.arange(0, 12), K, replace=False))
     elif kind == "noncontiguous":
         names = np.sort(r.choice(np.arange(0, 200), K, replace=False))
     else:
